@@ -37,6 +37,25 @@
 //   harness reads it through `rec_fetch`/`rec_reset`, whose bodies are
 //   provided by #[kani::stub] (the only way across the module boundary).
 //
+// What is decided, and what is not (measured limits):
+//   * complete exchanges (helper(s) -> Writer::finish_with_mac -> independent
+//     decoder) for every outcome with an UNSIGNED response: unknown algorithm,
+//     no such key (empty key map), MAC rejected (BADSIG), MAC size not allowed
+//     (FORMERR);
+//   * for the outcomes with a SIGNED response (authenticated; BADTIME) only
+//     the helper itself: return value, RCODE, which MAC was submitted for
+//     verification over which octets.  Running finish_with_mac on top did not
+//     finish in 57 min: CBMC loses the constants of the TsigMode / PreparedTsigRr
+//     handed to set_tsig and then explores all four signing modes with both
+//     algorithms.  The signed response is covered piecewise instead:
+//     c11_new_from_read (fields of the response TSIG, BADTIME time swap),
+//     c11_sign_response_* (MAC input, MAC and RDATA of a signed response),
+//     writer family (RR placement).  That verify_tsig_and_write_tsig_rr hands
+//     exactly (request MAC, algorithm, key) to TsigMode::Response is read off
+//     the code, not decided.
+//   * key lookup in a NON-EMPTY key map and the real Algorithm::from_name are
+//     not decided (harnesses kept below, not registered).
+//
 // Native replay (`cargo kani playback`) does not apply #[kani::stub]: a
 // counterexample of these harnesses will in general not reproduce natively.
 
@@ -61,6 +80,15 @@ fn rec_fetch(_out: &mut [u8; REC_CAP]) -> (usize, usize, bool) {
 
 fn rec_reset() {
     panic!("rec_reset must be stubbed")
+}
+
+/// Guard against native replay (see tsig_mac.rs::stubs_in_force): replaced by
+/// a function returning true in the attribute list of every harness here, so
+/// that `cargo kani playback` (no stubs) returns at once instead of failing in
+/// the bridge functions - a counterexample of these harnesses cannot be
+/// confirmed natively and must count as "not reproduced".
+fn stubs_in_force() -> bool {
+    false
 }
 
 /// 1: the MAC model reports "match", 2: "mismatch" (0 would compare)
@@ -522,6 +550,9 @@ macro_rules! read_tsig {
 /// Steps 1 and 2: algorithm and key lookup (no MAC is involved; the request
 /// MAC is 10 symbolic octets).  N = RDATA length = algorithm name + 26.
 fn lookup_case<const N: usize>(alg: AlgSel, keysel: KeySel, upcase: bool) {
+    if !stubs_in_force() {
+        return;
+    }
     let h: [u8; 4] = kani::any();
     let q: [u8; 4] = kani::any();
     let msg: [u8; 17] = [h[0], h[1], h[2], h[3], 0, 1, 0, 0, 0, 0, 0, 1, 0, q[0], q[1], q[2], q[3]];
@@ -593,7 +624,13 @@ fn lookup_case<const N: usize>(alg: AlgSel, keysel: KeySel, upcase: bool) {
 /// lookups hand over.  L = request MAC length, N = request RDATA length
 /// (algorithm name + 16 + L).  `accept`: what the MAC model answers when asked
 /// to verify (S5, forced).
-fn verify_case<const L: usize, const N: usize>(alg: AlgSel, accept: bool, clock: Clock, upcase: bool) {
+/// `finish` = false: stop after the helper (return value, RCODE, the MAC check
+/// made on the request); used for the outcomes with a SIGNED response, where
+/// running Writer::finish_with_mac on top did not finish (see the file header).
+fn verify_case<const L: usize, const N: usize>(alg: AlgSel, accept: bool, clock: Clock, upcase: bool, finish: bool) {
+    if !stubs_in_force() {
+        return;
+    }
     let h: [u8; 4] = kani::any();
     let q: [u8; 4] = kani::any();
     let msg: [u8; 17] = [h[0], h[1], h[2], h[3], 0, 1, 0, 0, 0, 0, 0, 1, 0, q[0], q[1], q[2], q[3]];
@@ -656,9 +693,12 @@ fn verify_case<const L: usize, const N: usize>(alg: AlgSel, accept: bool, clock:
         let (_, made, _) = rec_fetch(&mut got);
         assert!(made == 0, "[C10] no MAC is computed for an unacceptable MAC size");
     }
-    rec_reset();
-    let (n, ret_mac) = response.finish_with_mac();
-    check_response(n, ret_mac, &buf, x, aw, out, &key, &mac, oid, &time, &now);
+    assert!(u8::from(response.rcode()) as u16 == x.rcode, "[C10] RCODE set by verify_tsig_and_write_tsig_rr");
+    if finish {
+        rec_reset();
+        let (n, ret_mac) = response.finish_with_mac();
+        check_response(n, ret_mac, &buf, x, aw, out, &key, &mac, oid, &time, &now);
+    }
     kani::cover!(true, "exchange completed");
     core::mem::forget(tsig_rr);
 }
@@ -672,6 +712,7 @@ macro_rules! c10_stubs {
         #[kani::stub(crate::message::tsig::Algorithm::from_name, from_name_model)]
         #[kani::stub(crate::name::new_boxed_name, new_boxed_name_model)]
         #[kani::stub(crate::rr::rdata::TimeSigned::to_unix_time, to_unix_time_model)]
+        #[kani::stub(stubs_in_force, crate::message::tsig::kani_tsig_mac::stubs_are_in_force)]
         #[kani::stub(rec_fetch, crate::message::tsig::kani_tsig_mac::rec_fetch_impl)]
         #[kani::stub(rec_reset, crate::message::tsig::kani_tsig_mac::rec_reset_impl)]
         #[kani::stub(rec_force, crate::message::tsig::kani_tsig_mac::rec_force_impl)]
@@ -686,60 +727,60 @@ macro_rules! c10_stubs {
 
 // ---- step 3: verification and the response TSIG
 
-// @harness name=c10_ok_sha256_l32 props=C10 tier=thorough mem=10 t=3400 stubs="S5,S5a,S8,S9" kani="--no-assertion-reach-checks"
+// @harness name=c10_verify_ok_sha256_l32 props=C10 tier=quick mem=6 t=1800 stubs="S5,S5a,S8,S9" kani="--no-assertion-reach-checks"
 //   fn="verify_tsig_and_write_tsig_rr,ReadTsigRr::try_from,ReadTsigRr::verify_request,verification_core,check_mac_size,check_time,PreparedTsigRr::new_from_read,Writer::set_tsig,Writer::finish_with_mac,PreparedTsigRr::sign_response"
-//   bound="17-octet query (symbolic ID, flags, QTYPE, QCLASS) + TSIG RR: key 'k.', hmac-sha256, 32 symbolic MAC octets, symbolic original ID and error field; 2 symbolic key octets; MAC model answers 'match'; time signed T0, fudge 300, now = T0 + 300 (edge of the window); 512-octet response buffer; unwind 34"
+//   bound="17-octet query (symbolic ID, flags, QTYPE, QCLASS) + TSIG RR: key 'k.', hmac-sha256, 32 symbolic MAC octets, symbolic original ID and error field; 2 symbolic key octets; MAC model answers 'match'; time signed T0, fudge 300, now = T0 + 300 (edge of the window); 512-octet response buffer; decided up to the return of the helper (RCODE NOERROR, request MAC and digest checked), NOT through finish_with_mac; unwind 34"
 //   sym="id, flags, qtype, qclass, key:[u8;2], mac:[u8;32], original_id, error"
-c10_stubs!(c10_ok_sha256_l32, 34, verify_case::<32, 61>(AlgSel::Sha256, true, Clock::At(300), false));
+c10_stubs!(c10_verify_ok_sha256_l32, 34, verify_case::<32, 61>(AlgSel::Sha256, true, Clock::At(300), false, false));
 
-// @harness name=c10_ok_sha1_l10_early_upcase props=C10 tier=thorough mem=10 t=3400 stubs="S5,S5a,S8,S9" kani="--no-assertion-reach-checks"
+// @harness name=c10_verify_ok_sha1_l10_early_upcase props=C10 tier=quick mem=6 t=1800 stubs="S5,S5a,S8,S9" kani="--no-assertion-reach-checks"
 //   fn="verify_tsig_and_write_tsig_rr,ReadTsigRr::try_from,verification_core,check_mac_size,check_time,Writer::finish_with_mac,PreparedTsigRr::sign_response"
-//   bound="as c10_ok_sha256_l32 with hmac-sha1, a MAC truncated to 10 octets (the minimum), owner 'K.' and algorithm 'HMAC-SHA1.' in upper case, now = T0 - 300 (early edge); unwind 34"
+//   bound="as c10_verify_ok_sha256_l32 with hmac-sha1, a MAC truncated to 10 octets (the minimum), owner 'K.' and algorithm 'HMAC-SHA1.' in upper case, now = T0 - 300 (early edge); up to the return of the helper; unwind 22"
 //   sym="id, flags, qtype, qclass, key:[u8;2], mac:[u8;10], original_id, error"
-c10_stubs!(c10_ok_sha1_l10_early_upcase, 22, verify_case::<10, 37>(AlgSel::Sha1, true, Clock::At(-300), true));
+c10_stubs!(c10_verify_ok_sha1_l10_early_upcase, 22, verify_case::<10, 37>(AlgSel::Sha1, true, Clock::At(-300), true, false));
 
-// @harness name=c10_badtime_sha1_l20_late props=C10 tier=thorough mem=10 t=3400 stubs="S5,S5a,S8,S9" kani="--no-assertion-reach-checks"
+// @harness name=c10_verify_badtime_sha1_l20_late props=C10 tier=quick mem=6 t=1800 stubs="S5,S5a,S8,S9" kani="--no-assertion-reach-checks"
 //   fn="verify_tsig_and_write_tsig_rr,check_time,PreparedTsigRr::new_from_read,PreparedTsigRr::other,Writer::finish_with_mac,PreparedTsigRr::sign_response"
-//   bound="hmac-sha1, full 20-octet MAC that the MAC model accepts, now = T0 + 301 (one second past the window): NOTAUTH/BADTIME, signed, other data = server time; unwind 34"
+//   bound="hmac-sha1, full 20-octet MAC that the MAC model accepts, now = T0 + 301 (one second past the window): NOTAUTH and not authenticated; decided up to the return of the helper, NOT through finish_with_mac; unwind 22"
 //   sym="id, flags, qtype, qclass, key:[u8;2], mac:[u8;20], original_id, error"
-c10_stubs!(c10_badtime_sha1_l20_late, 22, verify_case::<20, 47>(AlgSel::Sha1, true, Clock::At(301), false));
+c10_stubs!(c10_verify_badtime_sha1_l20_late, 22, verify_case::<20, 47>(AlgSel::Sha1, true, Clock::At(301), false, false));
 
-// @harness name=c10_badtime_sha256_l16_early props=C10 tier=thorough mem=10 t=3400 stubs="S5,S5a,S8,S9" kani="--no-assertion-reach-checks"
+// @harness name=c10_verify_badtime_sha256_l16_early props=C10 tier=thorough mem=6 t=1800 stubs="S5,S5a,S8,S9" kani="--no-assertion-reach-checks"
 //   fn="verify_tsig_and_write_tsig_rr,check_time,PreparedTsigRr::new_from_read,Writer::finish_with_mac"
-//   bound="hmac-sha256, MAC truncated to 16, accepted by the MAC model, now = T0 - 301: BADTIME; unwind 34"
+//   bound="hmac-sha256, MAC truncated to 16, accepted by the MAC model, now = T0 - 301: NOTAUTH, not authenticated; up to the return of the helper; unwind 34"
 //   sym="id, flags, qtype, qclass, key:[u8;2], mac:[u8;16], original_id, error"
-c10_stubs!(c10_badtime_sha256_l16_early, 34, verify_case::<16, 45>(AlgSel::Sha256, true, Clock::At(-301), false));
+c10_stubs!(c10_verify_badtime_sha256_l16_early, 34, verify_case::<16, 45>(AlgSel::Sha256, true, Clock::At(-301), false, false));
 
 // @harness name=c10_badsig_sha256_l32 props=C10 tier=quick mem=6 t=1800 stubs="S5,S5a,S8,S9" kani="--no-assertion-reach-checks"
 //   fn="verify_tsig_and_write_tsig_rr,verification_core,Writer::set_tsig,Writer::finish_with_mac,PreparedTsigRr::unsigned"
 //   bound="hmac-sha256, 32-octet MAC that the MAC model rejects; time signed, fudge and now fully symbolic: NOTAUTH/BADSIG, empty MAC, whatever the time; unwind 34"
 //   sym="id, flags, qtype, qclass, key, mac:[u8;32], original_id, error, time:[u8;6], fudge:u16, now:[u8;6]"
-c10_stubs!(c10_badsig_sha256_l32, 34, verify_case::<32, 61>(AlgSel::Sha256, false, Clock::Any, false));
+c10_stubs!(c10_badsig_sha256_l32, 34, verify_case::<32, 61>(AlgSel::Sha256, false, Clock::Any, false, true));
 
 // @harness name=c10_badsig_sha1_l20 props=C10 tier=thorough mem=6 t=1800 stubs="S5,S5a,S8,S9" kani="--no-assertion-reach-checks"
 //   fn="verify_tsig_and_write_tsig_rr" bound="hmac-sha1, 20-octet MAC rejected by the MAC model; symbolic times; unwind 34"
 //   sym="id, flags, qtype, qclass, key, mac:[u8;20], original_id, error, time, fudge, now"
-c10_stubs!(c10_badsig_sha1_l20, 22, verify_case::<20, 47>(AlgSel::Sha1, false, Clock::Any, false));
+c10_stubs!(c10_badsig_sha1_l20, 22, verify_case::<20, 47>(AlgSel::Sha1, false, Clock::Any, false, true));
 
 // @harness name=c10_formerr_sha256_l0 props=C10 tier=quick mem=6 t=1800 stubs="S5,S5a,S8,S9" kani="--no-assertion-reach-checks"
 //   fn="verify_tsig_and_write_tsig_rr,check_mac_size" bound="hmac-sha256 with an empty MAC: FORMERR, no answer data; symbolic times; unwind 34"
 //   sym="id, flags, qtype, qclass, key, original_id, error, time, fudge, now"
-c10_stubs!(c10_formerr_sha256_l0, 34, verify_case::<0, 29>(AlgSel::Sha256, true, Clock::Any, false));
+c10_stubs!(c10_formerr_sha256_l0, 34, verify_case::<0, 29>(AlgSel::Sha256, true, Clock::Any, false, true));
 
 // @harness name=c10_formerr_sha256_l33 props=C10 tier=quick mem=6 t=1800 stubs="S5,S5a,S8,S9" kani="--no-assertion-reach-checks"
 //   fn="verify_tsig_and_write_tsig_rr,check_mac_size" bound="hmac-sha256 with a 33-octet MAC (longer than the output): FORMERR; symbolic times; unwind 35"
 //   sym="id, flags, qtype, qclass, key, mac:[u8;33], original_id, error, time, fudge, now"
-c10_stubs!(c10_formerr_sha256_l33, 35, verify_case::<33, 62>(AlgSel::Sha256, true, Clock::Any, false));
+c10_stubs!(c10_formerr_sha256_l33, 35, verify_case::<33, 62>(AlgSel::Sha256, true, Clock::Any, false, true));
 
 // @harness name=c10_formerr_sha256_l10 props=C10 tier=thorough mem=6 t=1800 stubs="S5,S5a,S8,S9" kani="--no-assertion-reach-checks"
 //   fn="verify_tsig_and_write_tsig_rr,check_mac_size" bound="hmac-sha256 with a 10-octet MAC (acceptable for hmac-sha1 only): FORMERR; unwind 34"
 //   sym="id, flags, qtype, qclass, key, mac:[u8;10], original_id, error, time, fudge, now"
-c10_stubs!(c10_formerr_sha256_l10, 34, verify_case::<10, 39>(AlgSel::Sha256, true, Clock::Any, false));
+c10_stubs!(c10_formerr_sha256_l10, 34, verify_case::<10, 39>(AlgSel::Sha256, true, Clock::Any, false, true));
 
 // @harness name=c10_formerr_sha1_l21 props=C10 tier=thorough mem=6 t=1800 stubs="S5,S5a,S8,S9" kani="--no-assertion-reach-checks"
 //   fn="verify_tsig_and_write_tsig_rr,check_mac_size" bound="hmac-sha1 with a 21-octet MAC: FORMERR; unwind 34"
 //   sym="id, flags, qtype, qclass, key, mac:[u8;21], original_id, error, time, fudge, now"
-c10_stubs!(c10_formerr_sha1_l21, 34, verify_case::<21, 48>(AlgSel::Sha1, true, Clock::Any, false));
+c10_stubs!(c10_formerr_sha1_l21, 34, verify_case::<21, 48>(AlgSel::Sha1, true, Clock::Any, false, true));
 
 // ---- steps 1 and 2: algorithm and key lookup
 
@@ -755,13 +796,15 @@ c10_stubs!(c10_lookup_unknown_alg, 18, lookup_case::<37>(AlgSel::Unknown, KeySel
 //   sym="id, flags, qtype, qclass, mac:[u8;10], original_id, error, time, fudge, now"
 c10_stubs!(c10_lookup_no_key_sha256, 18, lookup_case::<39>(AlgSel::Sha256, KeySel::Absent, false));
 
-// @harness name=c10_lookup_other_alg_sha1 props=C10 tier=thorough mem=8 t=3400 stubs="S1,S5b,S8" kani="--no-assertion-reach-checks"
+// NOT REGISTERED (did not finish: 40 min timeout, one Name == Name against a key stored in the HashMap model's Vec):
+// harness name=c10_lookup_other_alg_sha1 props=C10 tier=thorough mem=8 t=3400 stubs="S1,S5b,S8" kani="--no-assertion-reach-checks"
 //   fn="find_tsig_algorithm_or_write_error,find_tsig_key_or_write_error,<Name as PartialEq>::eq"
 //   bound="request names hmac-sha1 but key 'k.' is configured for hmac-sha256 (one-entry key map): NOTAUTH/BADKEY; symbolic times; unwind 18"
 //   sym="id, flags, qtype, qclass, key, mac:[u8;10], original_id, error, time, fudge, now"
 c10_stubs!(c10_lookup_other_alg_sha1, 17, lookup_case::<37>(AlgSel::Sha1, KeySel::OtherAlg, false));
 
-// @harness name=c10_lookup_match_sha1_upcase props=C10 tier=thorough mem=8 t=3400 stubs="S1,S5b,S8" kani="--no-assertion-reach-checks"
+// NOT REGISTERED (did not finish: 40 min timeout, one Name == Name against a key stored in the HashMap model's Vec):
+// harness name=c10_lookup_match_sha1_upcase props=C10 tier=thorough mem=8 t=3400 stubs="S1,S5b,S8" kani="--no-assertion-reach-checks"
 //   fn="find_tsig_algorithm_or_write_error,find_tsig_key_or_write_error,<Name as PartialEq>::eq"
 //   bound="owner 'K.' and algorithm 'HMAC-SHA1.' in upper case, key map {k. -> (hmac-sha1, 2 symbolic octets)}: algorithm and key are found, the response is left untouched; unwind 18"
 //   sym="id, flags, qtype, qclass, key, mac:[u8;10], original_id, error, time, fudge, now"
@@ -778,7 +821,8 @@ fn from_name_case(wire: &[u8], expect: Option<Algorithm>) {
     assert!(from_name_model(&n) == real, "[C10] the harness model of from_name (stub S5b) agrees with the real function");
 }
 
-// @harness props=C10 tier=thorough mem=8 t=3400 stubs="S1,S8" kani="--no-assertion-reach-checks"
+// NOT REGISTERED (did not finish in 30 min with six names; never run to completion with three):
+// harness props=C10 tier=thorough mem=8 t=3400 stubs="S1,S8" kani="--no-assertion-reach-checks"
 //   fn="Algorithm::from_name,<Name as PartialEq>::eq,<Label as PartialEq>::eq"
 //   bound="the real lookup (lazy_static names parsed from text, association-list HashMap model) on three concrete names: hmac-sha1., HMAC-SHA256. (upper case), hmac-sha7.; unwind 16"
 //   sym="none (concrete names)"
